@@ -55,7 +55,8 @@ def st_case(draw, tier):
     cls = CLASSES[variant][:2]
     sp1, sp2 = draw(st.sampled_from(cls)), draw(st.sampled_from(cls))
     kind = draw(st.sampled_from(["isr", "isr", "isr", "mvp", "precursor",
-                                 "transpose", "block_order", "mvp_sum"]))
+                                 "transpose", "block_order", "mvp_sum",
+                                 "expval", "expval_sum"]))
     order = draw(st.integers(0, 2))
     size = len(sp1) + len(sp2)
     cap = {"quick": {2: 2, 3: 2, 4: 2, 5: 1, 6: 1, 7: 1, 8: 1},
@@ -124,6 +125,8 @@ def run_case(case):
         return r
     if case["kind"] == "mvp_sum":
         return run_mvp_sum(case, r, sm)
+    if case["kind"] == "expval_sum":
+        return run_expval_sum(case, r, sm)
     sp1, sp2, order = case["sp1"], case["sp2"], case["order"]
     sub = case["subtract_gs"]
     I = get_symbols(case["i1"])
@@ -148,7 +151,8 @@ def run_case(case):
     nz = bool((Mref != 0).any())
     name = {"isr": "isr_matrix_block", "transpose": "isr_matrix_block",
             "precursor": "precursor_matrix_block",
-            "mvp": "mvp_block_order"}[kind]
+            "mvp": "mvp_block_order",
+            "expval": "expectation_value_block_order"}[kind]
     r.sample = (f"SecularMatrix({variant}).{name}({order}, '{sp1},{sp2}', "
                 f"'{s1},{s2}', subtract_gs={sub}) model {case['size']} "
                 f"canonical={ham.canonical}")
@@ -177,6 +181,22 @@ def run_case(case):
                 if not (np.transpose(val2, perm) == val).all():
                     r.fail("transpose", f"{r.sample}: block ({sp2},{sp1}) is "
                            "not the transpose")
+    elif kind == "expval":
+        # energy expectation value contribution of one block:
+        # sum_{I<,J<} Xt_I M_IJ Yt_J for normalised vectors Xt, Yt
+        r.sample = (f"SecularMatrix({variant}).{name}({order}, "
+                    f"'{sp1},{sp2}', subtract_gs={sub}) model {case['size']}")
+        ok, ex = lib_call(r, name, sm.expectation_value_block_order, order,
+                          f"{sp1},{sp2}", sub)
+        if not ok:
+            return r
+        yt = isr.amplitude_tensor(m, sp2, "Y", case["mseed"])
+        xt = isr.amplitude_tensor(m, sp1, "X", case["mseed"] + 1)
+        vec = (Mref.astype(object) @ np.array(yt, dtype=object)) % P
+        ref = int(sum(int(a) * int(b) for a, b in zip(xt, vec)) % P)
+        val = int(evaluate(m, Expr(ex).expand().sympy, ()))
+        if val != ref:
+            r.fail(name, f"{r.sample}: value differs from X^T M Y")
     else:   # mvp
         ok, ex = lib_call(r, name, sm.mvp_block_order, order, sp1,
                           f"{sp1},{sp2}", s1, sub)
@@ -261,6 +281,63 @@ def run_mvp_sum(case, r, sm):
                "elements differ from the sum of the admitted blocks/orders")
     r.nontrivial = bool((ref != 0).any()) and len(todo) >= 2
     r.cls("mvp_sum", variant, f"adc={n}", f"order={o_req}",
+          f"subtract_gs={sub}")
+    return r
+
+
+def run_expval_sum(case, r, sm):
+    """expectation_value(adc_order, order, subtract_gs) == sum over all
+    blocks / orders the ADC(n) rule admits of Xt^T M Yt"""
+    variant = case["variant"]
+    n = case["mvp_adc"]
+    spaces, blocks = adc_rule(variant, n)
+    o_req = case["mvp_order"]
+    sub = case["subtract_gs"]
+    need = CLASSES[variant][:2]
+    todo = []
+    for (b1, b2), mx in blocks.items():
+        if b1 not in need or b2 not in need:
+            raise BadCase("third class needed")
+        for o in range(mx + 1):
+            if o_req is None or o == o_req:
+                todo.append((b1, b2, o))
+    if not todo:
+        raise BadCase("nothing to sum")
+    if any(len(b1) + len(b2) >= 6 and o >= 2 for b1, b2, o in todo):
+        raise BadCase("too expensive")
+    max_o = max(o for _, _, o in todo)
+    for attempt in range(4):
+        try:
+            m, ham, pt, isr = make_oracle(case, max(max_o, 1), need, attempt)
+            break
+        except ModelResample:
+            r.resampled += 1
+    else:
+        raise ModelResample("no regular model")
+    if any(not isr.configs[c] for c in need):
+        raise BadCase("model too small")
+    r.sample = (f"SecularMatrix({variant}).expectation_value({n}, "
+                f"order={o_req}, subtract_gs={sub}) model {case['size']}")
+    ok, ex = lib_call(r, "expectation_value", sm.expectation_value, n, o_req,
+                      sub)
+    if not ok:
+        return r
+    xts, yts = {}, {}
+    for c in need:
+        if c in spaces:
+            yts[c] = isr.amplitude_tensor(m, c, "Y", case["mseed"])
+            xts[c] = isr.amplitude_tensor(m, c, "X", case["mseed"] + 1)
+    ref = 0
+    for b1, b2, o in todo:
+        M = isr.matrix_series(b1, b2, isr.hamiltonian_series(sub))[o]
+        vec = (M.astype(object) @ np.array(yts[b2], dtype=object)) % P
+        ref = (ref + sum(int(a) * int(b) for a, b in zip(xts[b1], vec))) % P
+    val = int(evaluate(m, Expr(ex).expand().sympy, ()))
+    if val != int(ref):
+        r.fail("expectation_value", f"{r.sample}: value differs from the "
+               "sum of X^T M Y over the admitted blocks/orders")
+    r.nontrivial = ref != 0 and len(todo) >= 2
+    r.cls("expval_sum", variant, f"adc={n}", f"order={o_req}",
           f"subtract_gs={sub}")
     return r
 
